@@ -59,14 +59,27 @@ func NewSymbols(grammar *ast.Grammar) *Symbols {
 		return symbols
 	}
 
+	// All production names are known before the bodies are read: a string literal
+	// may be spelled like a production that is defined further down.
 	for _, p := range grammar.SyntaxPart.ProdList {
+		if p.Id == "INVALID" {
+			panic("production name INVALID is reserved for the invalid token")
+		}
 		if _, exist := symbols.ntIdMap[p.Id]; !exist {
 			symbols.ntTypeMap = append(symbols.ntTypeMap, p.Id)
 			symbols.ntIdMap[p.Id] = len(symbols.ntTypeMap) - 1
 		}
+	}
+
+	for _, p := range grammar.SyntaxPart.ProdList {
 		symbols.Add(p.Id)
 		for _, sym := range p.Body.Symbols {
 			symStr := sym.SymbolString()
+			if _, ok := sym.(ast.SyntaxStringLit); ok {
+				if symStr == "INVALID" || symStr == "␚" {
+					panic(fmt.Sprintf("string_lit \"%s\" conflicts with the reserved symbol %s", symStr, symStr))
+				}
+			}
 			symbols.Add(symStr)
 			if _, ok := sym.(ast.SyntaxStringLit); ok {
 				if _, exist := symbols.ntIdMap[symStr]; exist {
